@@ -349,17 +349,30 @@ def define_variables(conn: Obj, mapping: dict) -> None:
     from .model import Program
     vars_obj = conn.attrs["variables"]
     store = vars_obj.attrs.get(R().variables)
-    if isinstance(store, Dct) or store is None:
-        vars_obj.attrs[R().variables] = Dct(dict(mapping))
-        return
     prog = _PROG if _PROG is not None else Program()
     sandbox = _I(prog, _H(), [])
-    for k, val in mapping.items():
+
+    def set_stmt(k, val):
         col = NodeV("Column", {"this": NodeV("Identifier", {"this": Const(k), "quoted": Const(False)}, name=f"id:{k}", open=False)},
                     name=f"col:{k}", open=False)
         value = val if isinstance(val, NodeV) else lit(val.v if isinstance(val, Const) else val, False)
-        st = node("Set", "stmt", unset=Const(False), tag=Const(False), expressions=Lst([node("SetItem", this=node("EQ", this=col, expression=value))]))
-        sandbox.call(sandbox.getattr(vars_obj, "update_variables"), [st], {}, None)
+        return node("Set", "stmt", unset=Const(False), tag=Const(False), expressions=Lst([node("SetItem", this=node("EQ", this=col, expression=value))]))
+
+    if isinstance(store, Dct) or store is None:
+        # a plain name -> text mapping is written directly; a mapping of *records* (name -> object holding the text) is filled
+        # the way SET fills it — probed on a scratch instance
+        probe = _new_variables()
+        try:
+            sandbox.call(sandbox.getattr(probe, "update_variables"), [set_stmt("PROBE", Const("0"))], {}, None)
+            pstore = probe.attrs.get(R().variables)
+            records = isinstance(pstore, Dct) and any(isinstance(v_, Obj) for v_ in pstore.items.values())
+        except Exception:  # noqa: BLE001
+            records = False
+        if not records:
+            vars_obj.attrs[R().variables] = Dct(dict(mapping))
+            return
+    for k, val in mapping.items():
+        sandbox.call(sandbox.getattr(vars_obj, "update_variables"), [set_stmt(k, val)], {}, None)
 
 
 STATE_ROLES = ("table", "index", "rowcount", "last_sql", "last_params", "sqlstate", "arraysize")
